@@ -43,7 +43,7 @@ for pid in ids:
     os.makedirs(W + '/seed', exist_ok=True)
     json.dump(props[pid], open(W + '/seed/property.json', 'w'), indent=1)
     earlier = []
-    for d in ('seeded', 'seeded2', 'seeded3', 'seeded4', 'seeded5', 'seeded6'):
+    for d in ('seeded', 'seeded2', 'seeded3', 'seeded4', 'seeded5', 'seeded6', 'seeded7'):
         mp = '/verif/%s/%s/meta.json' % (d, pid)
         if os.path.exists(mp):
             try:
